@@ -247,7 +247,7 @@ def spec_e2e(a):
 
 
 def gen_shared(rng, tier):
-    for _ in range(n_cases(tier, 60, 1200)):
+    for _ in range(n_cases(tier, 60, 800)):
         seeds = [rng.randrange(10**9) for _ in range(rng.randint(2, 3))]
         steps = [[s, rng.choice(["single", "list"])] for s in seeds]
         steps += [list(rng.choice(steps)) for _ in range(rng.randint(1, 2))]      # come back to an earlier universe
@@ -284,7 +284,7 @@ def classify_e2e(a, o):
 
 # ------------------------------------------------------------------ dict.valok: the hypothesis of dict_rt on real universes
 def gen_valok(rng, tier):
-    for u, desc, ctx, obj in instances(rng, tier, n_cases(tier, 80, 1500), 5):
+    for u, desc, ctx, obj in instances(rng, tier, n_cases(tier, 80, 900), 5):
         yield {"ctx": ctx, "value": u.to_val(obj), "clazz": "Root", "factory": rng.choice(["dict", "filter_none"]),
                "desc": desc, "_uni": u.modname}
 
@@ -443,22 +443,26 @@ ASSUMPTIONS = [
     "AnyElement / DerivedElement metadata is exported like a user class and added to the context under the ids AnyElement / DerivedElement",
 ]
 LEVEL_TEXT = (
-    "Lean theorems for all class universes / instances of the typed fragment valOKj (str/int/bool, model-class, list and wrapped-list "
-    "fields, both dictionary factories, every parser config): dict_rt, list_rt, json_rt, encode_json_native, best_match_unique; "
-    "the full-strength statement is still refuted by two witnesses on real exported contexts that are inherent in the untagged JSON shape "
-    "(subclass ambiguity, model instance under a wildcard; known findings, replayed on /repo); the former counterexamples for FILTER_NONE "
-    "generic elements, wrapped lists in candidate pools and compound str/int are now positive theorems (filter_none_any_roundtrip, "
-    "wrapper_best_roundtrip, compound_exact_type_first) after the repairs; "
-    "model tied to /repo by dict.enc / dict.dec / dict.roundtrip on generated universes incl. wildcard, compound, attributes, tokens, "
-    "wrapper, inheritance, unknown keys and wrong shapes."
+    "Lean theorems for all class universes / instances of the fragment valOKj — typed str/int/bool/QName fields, model-class fields, "
+    "lists and wrapped lists of both, tokens fields, compound fields (primitives by exact type, instances singled out by their keys), "
+    "xs:anyAttribute maps, wildcard fields (single, list, mixed) holding generic AnyElements of any nesting, primitives and None; both "
+    "dictionary factories, every parser config: dict_rt, dict_rt_universe (typing suffices in universes without subclass pools), list_rt, "
+    "json_rt, encode_json_native, best_match_unique; Props/C04Wrap.lean: the wrapped flag and Enum members of the encoder "
+    "(wrapper_once, wrapped_enum_list). The op dict.valok evaluates the hypotheses on generated universes (about 85 % of the instances "
+    "are inside the fragment) and demands the real round trip whenever they hold. The full-strength statement is still refuted by two "
+    "witnesses on real exported contexts that are inherent in the untagged JSON shape (subclass ambiguity, model instance under a "
+    "wildcard; known findings, replayed on /repo); model tied to /repo by dict.enc / dict.dec / dict.roundtrip / dict.encflags on "
+    "generated universes incl. derived elements, unknown keys and wrong shapes, and by the spec-level ops c04.e2e / c04.shared."
 )
 LEVEL_NOTE = (
     "The `wrapped` flag of DictEncoder.encode and Enum members are modelled literally in Dict/EncodeFlags.lean (op dict.encflags, "
     "theorems wrapper_once / wrapped_ignores_wrapper in Props/C04Wrap.lean). "
     "float, Decimal, unions of primitives, bytes, XmlDate/XmlDateTime/XmlDuration and enums are not in the Lean layer: they are "
     "covered by the spec-level op c04.e2e and the oracle rich_types_roundtrip on the real code only (harness/c04_rich.py). "
-    "Outside the proved fragment (executable model + correspondence only): tokens, QName primitives, attributes maps, wildcards, "
-    "compound fields, unions, detect-type (clazz=None), ignore_default_attributes. Untyped (anyType) primitive fields are outside the property."
+    "Outside the proved fragment (executable model + correspondence only): DerivedElement values, unions, lists of tokens, compound "
+    "fields holding None, detect-type (clazz=None), ignore_default_attributes. The JSON text grammar is not modelled: json_rt assumes a "
+    "library that is inverse on JSON-native values (checked on the real json module by the route=json cases, indentation varied). "
+    "Untyped (anyType) primitive fields are outside the property."
 )
 
 
